@@ -60,8 +60,8 @@ def gen_plan(rng, index, tier):
         holes = rng.sample(cand, min(len(cand) - 1, rng.randint(1, 3)))
     bp["holes"] = [list(h) for h in holes]
     st = {"nCycles": 1, "burnSteps": 1, "trackAssems": rng.random() < 0.7}
-    if not bp["sfp"] and rng.random() < 0.85:
-        st["trackAssems"] = False  # (tracking into the grid-less default pool is a recorded finding)
+    if not bp["sfp"] and rng.random() < 0.5:
+        st["trackAssems"] = False  # (else: tracking into the default pool of a blueprint without a pool system)
     if plate and rng.random() < 0.85:
         st["stationaryBlockFlags"] = ["GRID_PLATE"]
         if rng.random() < 0.35:
